@@ -2,7 +2,7 @@
    (DESIGN 1.4).  The tables themselves are regenerated from the current source tree on every
    check (tools/globals.py, tools/diag_sites.py, tools/rand_sites.py -> coq/Gen/*Table.v) and the
    instance theorems are re-proved over the fresh table by vm_compute + the lemmas below. *)
-From Coq Require Import String List Bool NArith.
+From Coq Require Import String List Bool NArith ZArith.
 Import ListNotations.
 Open Scope string_scope.
 
@@ -88,17 +88,69 @@ Proof.
 Qed.
 
 (* ============================================================================ C18: entropy sites *)
+(* How the caller tests the returned status.  The library's convention is 1 = success; the failure values of each
+   entropy-dependent function are read off its return statements by the translator (rand_bytes: -1; *_rand_range: 0
+   and -1; ...).  A test is adequate for a failure value v when it sends v down a different branch than 1. *)
+Inductive cmp_op := Ceq | Cne | Clt | Cle | Cgt | Cge.
+Inductive status_test :=
+| TCmp (o : cmp_op) (c : Z)       (* status o c *)
+| TNot                            (* !status *)
+| TTruth                          (* if (status) / status && ... *)
+| TReturned                       (* return status: the caller's caller decides *)
+| TOther (why : string).          (* anything the translator does not understand *)
+
+Definition eval_cmp (o : cmp_op) (v c : Z) : bool :=
+  match o with
+  | Ceq => Z.eqb v c | Cne => negb (Z.eqb v c) | Clt => Z.ltb v c | Cle => Z.leb v c | Cgt => Z.ltb c v | Cge => Z.leb c v
+  end.
+
+Definition eval_test (t : status_test) (v : Z) : option bool :=
+  match t with
+  | TCmp o c => Some (eval_cmp o v c)
+  | TNot => Some (Z.eqb v 0)
+  | TTruth => Some (negb (Z.eqb v 0))
+  | TReturned | TOther _ => None
+  end.
+
+Definition distinguishes (t : status_test) (v : Z) : bool :=
+  match t with
+  | TReturned => true
+  | TOther _ => false
+  | _ => match eval_test t v, eval_test t 1%Z with Some a, Some b => negb (Bool.eqb a b) | _, _ => false end
+  end.
+
 Record rand_site := mkSite {
   s_file : string; s_fn : string; s_callee : string; s_line : N;
-  s_result_used : bool;         (* the call's value reaches a test / return / assignment *)
-  s_how : string                (* syntactic position of the call *)
+  s_result_used : bool;          (* the call's value is not discarded *)
+  s_how : string;                (* syntactic position of the call *)
+  s_tests : list status_test;    (* every test the caller applies to the status (directly or through the variable holding it) *)
+  s_fails : list Z               (* the callee's failure return values *)
 }.
 
-Definition site_ok (s : rand_site) : bool := s_result_used s.
+Definition site_ok (s : rand_site) : bool :=
+  s_result_used s && forallb (fun v => existsb (fun t => distinguishes t v) (s_tests s)) (s_fails s).
 Definition site_key (s : rand_site) : string := s_file s ++ ":" ++ s_fn s ++ ":" ++ s_callee s.
 
 Lemma rand_table_sound : forall tbl : list rand_site,
-  forallb site_ok tbl = true -> forall s, In s tbl -> s_result_used s = true.
+  forallb site_ok tbl = true ->
+  forall s, In s tbl ->
+    s_result_used s = true /\
+    forall v, In v (s_fails s) -> exists t, In t (s_tests s) /\ distinguishes t v = true.
 Proof.
-  intros tbl H s Hs. rewrite forallb_forall in H. exact (H s Hs).
+  intros tbl H s Hs. rewrite forallb_forall in H. specialize (H s Hs). unfold site_ok in H.
+  apply andb_true_iff in H. destruct H as [H1 H2]. split; [exact H1|].
+  intros v Hv. rewrite forallb_forall in H2. specialize (H2 v Hv). apply existsb_exists in H2. exact H2.
 Qed.
+
+(* what "distinguishes" buys: the tested value v is not treated like success *)
+Lemma distinguishes_sound : forall t v a b,
+  distinguishes t v = true -> eval_test t v = Some a -> eval_test t 1%Z = Some b -> a <> b.
+Proof.
+  intros t v a b H Ha Hb. destruct t; cbn in H; try discriminate; cbn in Ha, Hb;
+  inversion Ha; inversion Hb; subst; intro E; rewrite E in H; rewrite Bool.eqb_reflx in H; discriminate.
+Qed.
+
+(* the seeded shape: `!rand_bytes(...)` does not tell -1 from 1, `!= 1` does, `< 0` misses 0 *)
+Example not_misses_minus_one : distinguishes TNot (-1)%Z = false /\ distinguishes (TCmp Cne 1%Z) (-1)%Z = true /\
+  distinguishes (TCmp Clt 0%Z) 0%Z = false /\ distinguishes (TCmp Cle 0%Z) 0%Z = true /\ distinguishes TTruth (-1)%Z = false.
+Proof. repeat split. Qed.
